@@ -68,11 +68,45 @@ pub struct D<'a> {
     pub r: &'a mut Runner,
     pub g: Rng,
     pub thorough: bool,
+    /// Retransmissions (families that switch it on): a requester that got no answer sends the *same bytes* again,
+    /// so the endpoint sees verbatim copies of recent packets - right after the original, after other traffic,
+    /// and after its state was changed through an accessor.  Anything the library remembers about a packet
+    /// (a cached response, a memoised check) must stay correct under that.
+    pub echo: bool,
+    recent: std::collections::BTreeMap<u64, Vec<Vec<u8>>>,
 }
 
 impl<'a> D<'a> {
     pub fn ex(&mut self, cmd: Value) -> Value {
-        self.r.exec(&cmd)
+        let v = self.r.exec(&cmd);
+        if self.echo {
+            // read - write - identical read: after a store through an accessor, the last packet the context
+            // processed arrives again, byte for byte
+            let op = cmd["op"].as_str().unwrap_or("");
+            if op == "set_uuid" || op == "set_eid" {
+                let c = cmd["ctx"].as_u64().unwrap_or(0);
+                if let Some(p) = self.recent.get(&c).and_then(|r| r.last()).cloned() {
+                    let poison = self.poison();
+                    self.r.exec(&json!({"op":"process","ctx":c,"p":jb(&p),"rbuf_len":64,"poison":poison}));
+                }
+            }
+        }
+        v
+    }
+
+    fn remember(&mut self, ctx: u64, p: &[u8]) {
+        let poison = self.poison();
+        let ring = self.recent.entry(ctx).or_default();
+        ring.push(p.to_vec());
+        if ring.len() > 6 {
+            ring.remove(0);
+        }
+        // one call in six is followed by a retransmission of one of the last six packets
+        if poison % 6 == 0 {
+            let k = (poison as usize / 6) % ring.len();
+            let q = ring[k].clone();
+            self.r.exec(&json!({"op":"process","ctx":ctx,"p":jb(&q),"rbuf_len":64,"poison":poison}));
+        }
     }
 
     pub fn new_ctx(&mut self, ctx: u64, addr: u8, mts: &[u8], vids: &[(u8, [u8; 4], [u8; 2])]) {
@@ -153,7 +187,11 @@ impl<'a> D<'a> {
             6 => 1024,
             _ => 64,
         };
-        self.ex(json!({"op":"process","ctx":ctx,"p":jb(p),"rbuf_len":cap,"poison":poison}))
+        let v = self.ex(json!({"op":"process","ctx":ctx,"p":jb(p),"rbuf_len":cap,"poison":poison}));
+        if self.echo {
+            self.remember(ctx, p);
+        }
+        v
     }
 
     pub fn process_n(&mut self, ctx: u64, p: &[u8], rbuf_len: usize) -> Value {
@@ -223,6 +261,8 @@ pub fn drive(family: &str, thorough: bool, seed_val: u64, r: &mut Runner) {
         // another seed: thorough tiers use this to multiply the random families
         g: Rng::new(seed_val.wrapping_add(crate::drivers_rx::shard_of().0 as u64 * 7919)),
         thorough,
+        echo: matches!(family, "history" | "identity" | "forge" | "vendor_enum"),
+        recent: Default::default(),
     };
     match family {
         "seed" => seed(&mut d),
